@@ -408,7 +408,7 @@ def hostile_inputs(ctx, n: int) -> list[bytes]:
     "C17",
     "PA over hostile bytes (random; bit-flipped and spliced valid streams; declared table sizes up to 2^32-1; declared frame lengths up to "
     "2^63; quoted triples nested 50..800 deep; options in odd places; thousands of empty frames) fed to parse_jelly_flat and "
-    "parse_jelly_grouped of both integrations in a subprocess under an address-space limit and a wall-clock watchdog: every input must end in a "
+    "parse_jelly_grouped of both integrations in a subprocess under an address-space limit and a CPU-time watchdog (a wall-clock one far behind it): every input must end in a "
     "return or an ordinary exception, promptly and without ballooning; the ok/error outcome is compared with the model run on the same bytes "
     "(when protobuf itself accepts them). Non-trivial = an input on which some entry point got past the options row; distinct by byte string.",
     ["termination, survival of the interpreter and RSS of the real process (protobuf's C parser, CPython recursion) are runtime facts: monitored, not proved"],
@@ -419,7 +419,7 @@ def c17(ctx):
     payload = json.dumps([b.hex() for b in inputs])
     env = dict(os.environ, PYTHONPATH=core.REPO, PYTHONHASHSEED="0")
     try:
-        p = subprocess.run([sys.executable, WORKER], input=payload, capture_output=True, text=True, env=env, timeout=ctx.n(240, 1800))
+        p = subprocess.run([sys.executable, WORKER], input=payload, capture_output=True, text=True, env=env, timeout=ctx.n(1200, 7200))
         lines = [json.loads(x) for x in p.stdout.splitlines() if x.startswith("{")]
         rc = p.returncode
     except subprocess.TimeoutExpired:
@@ -436,9 +436,9 @@ def c17(ctx):
         if not x:
             continue
         ctx.report.evaluations += 1
-        if x["max_s"] > 5.0 + len(b) / 20_000:  # promptly: a constant plus time in proportion to the input (50 us per byte, traced)
+        if x["max_s"] > 5.0 + len(b) / 20_000:  # promptly: a constant plus time in proportion to the input (50 us per byte, traced) -- CPU seconds of the parsing process
             out.append({"family": "PA", "mode": "hostile", "bytes": hx(b), "corresponds": True, "impl": x, "model": [],
-                        "property_violation": {"what": f"parsing took {x['max_s']:.1f}s"}, "signature": {}})
+                        "property_violation": {"what": f"parsing took {x['max_s']:.1f}s of CPU time"}, "signature": {}})
         if any(v in ("err:MemoryError", "hang") for v in x["outcomes"].values()):
             out.append({"family": "PA", "mode": "hostile", "bytes": hx(b), "corresponds": True, "impl": x, "model": [],
                         "property_violation": {"what": f"a {len(b)}-byte input exhausted memory or time: {x['outcomes']}"}, "signature": {}})
